@@ -39,6 +39,20 @@ CHECKS.update({
    text="(a) random parseable documents of both grammars are parsed and printed by the real code (plain writer and JS template writer) and the printed text, read back by an independent parser with spec string semantics, must denote the same document; the template literal is evaluated (cooked value, unescaped ${ is an error) and must equal the plain printing. (b) valid schemas with hostile descriptions and default strings, split over files and extensions, go through the library route and (sampled) the real CLI's serverGraphqlOutput module; every definition of strip_nitrogql(merge(M)) must be present with identical content and only built-ins may be added.",
    note="trusts refparse.rs and the template evaluator in jsread.rs; string findings are keyed by the class of the source string (block / quoted multi-line / quoted single-line)", ref="DESIGN.md §5 C16"),
 })
+CHECKS.update({
+ "C03": dict(cat="fault_enumeration", tech="runtime monitor: labelled single-fault mutants of valid documents (confirmed by a reference validator) pushed through the real check; every mutant must be diagnosed with a kind of its rule",
+   text="Valid-by-construction documents over generated valid schemas receive one fault out of 33 injectors covering the 20 implemented rules (plus faults inside fragments that nothing spreads), placed at a random site class (operation top level, nested, named fragment, inline fragment, directive argument, variable default, fragment/variable definition). A reference validator written from the spec confirms the mutant breaks exactly the labelled rule; the real resolve+check must then report at least one diagnostic, and one whose kind belongs to the rule.",
+   note="trusts harness validate.rs as the labelling oracle; mutants the reference validator does not confirm as single-rule are skipped and counted; the monitor stops after check (what generate does with a wrongly accepted document is C08's)", ref="DESIGN.md §5 C03"),
+ "C04": dict(cat="exploration", tech="runtime monitor: valid-by-construction documents (confirmed valid by the reference validator, incl. field merging) must get zero diagnostics from the real check",
+   text="Generated valid schemas and documents with rarely combined features (interface-of-interface and union/interface spreads, literals relying on input coercion, nullable variables with defaults in non-null positions, repeatable custom directives, imports across files, shorthand queries) go through the real parse/resolve/check; any diagnostic is a violation whose signature names the diagnostic kind and the construct at its position.",
+   note="valid means: accepted by harness validate.rs (implemented rules + FieldsInSetCanMerge, all variables/fragments used)", ref="DESIGN.md §5 C04"),
+ "C05": dict(cat="fault_enumeration", tech="runtime monitor: valid schemas (any extension/file split) must get zero diagnostics; labelled single-fault mutants confirmed by a reference validator must get at least one",
+   text="Accept side: generated valid schemas with directives on every legal location, extension splits and 1-3 files go through the real parse/merge/builtins/resolve/check. Reject side: 34 injectors covering every rule family named in the property (reserved names, duplicates, unknown types, input/output misuse, implements faults, transitive interfaces, interface field/argument compatibility, union members, directive applications, recursive directives), each confirmed by the reference validator as a single-rule fault, must produce a diagnostic.",
+   note="trusts harness validate.rs; default-value typing and cross-kind duplicate names are not among the enumerated faults", ref="DESIGN.md §5 C05"),
+ "C12": dict(cat="exploration", tech="runtime monitor: emitted DocumentNode JSON read by an independent graphql-js-AST reader and compared with the source operation plus the reference fragment closure",
+   text="For generated valid multi-file projects, every `const X = {...}` literal of the standalone .graphql.ts text, of the loader JS printer and (every third case) of the real loader ABI output is parsed as JSON, read into the harness model and compared: first definition = the source definition (type, name, variable definitions with defaults and directives, directives, selection tree verbatim), followed by exactly the transitively spread fragments once each; every operation and own fragment has a document.",
+   note="only documents that the real check accepts are cases; block strings and coercing literals masked", ref="DESIGN.md §5 C12"),
+})
 NOT_YET = {}
 
 def main():
